@@ -2,7 +2,7 @@
 import parseprops, parsecase, docgen, dump, docwire
 from common import show_str
 
-THEOREMS = ['Pylx.C02.C02_core', 'Pylx.C02.C02_core_run', 'Pylx.C02.C02_core_ok', 'Pylx.C02.items_reach', 'Pylx.C02.args_reach', 'Pylx.C02.C02_full_false']
+THEOREMS = ['Pylx.C02.C02_core', 'Pylx.C02.C02_core_run', 'Pylx.C02.C02_core_ok', 'Pylx.C02.items_reach', 'Pylx.C02.args_reach']
 PROOF_MODULES = ['C02']
 RULE = ('DOC: the same derivation through docgen (unparse, tree_of, WF) and through the Lean grammar Pylx.Doc (unparse, treeOf, WF, and shapeOf(parse(unparse d)) = treeOf d evaluated by the driver); PARSE strict on documents derived from the document grammar (text, groups, macro calls with every mix of star / bracket / '
         'mandatory arguments as groups or single tokens, environments with arguments, the four math delimiters, comments, specials, '
@@ -126,9 +126,11 @@ def run_impl(c):
             fail = {'kind': 'structure-differs', 'detail': 'expected %r ; parsed %r' % (exp, got)}
     return {'out': out, 'fail': fail, 'sig': ','.join(sorted(kinds))}
 
-LEVEL_TEXT = ('proved for the fragment Doc.Core (text, whitespace, brace groups, comments, control-word macro calls with m/o/s slots as '
-              'brace/bracket groups, stars or absent, the four kinds of math, specials without arguments; any nesting; every context without a '
-              'specials string starting with a text character, *, [ or ]; every sufficient fuel and the fuel parseTop uses); rest of the grammar: correspondence + oracle')
+LEVEL_TEXT = ('proved for the fragment Doc.Core (text, whitespace, paragraph breaks, brace groups, comments, control-word and control-symbol macro calls '
+              'and environments with m/o/s/t/r/d slots as brace groups or single tokens, bracket groups, stars, markers, delimited groups or absent, '
+              'the four kinds of math, specials without arguments, \\verb; any nesting; every context without a specials string starting with a text '
+              'character, *, [ or ]; every sufficient fuel and the fuel parseTop uses); rest of the grammar (verbatim environments, v arguments, '
+              'specials with arguments): correspondence + oracle')
 LEVEL_NOTE = ('C02_full (all constructs, all contexts) is stated in Lean over the grammar Pylx.Doc but proved only on Doc.Core; outside the '
               'fragment the property rests on the PARSE correspondence, the structure oracle and the DOC cross-check of the grammar')
 TECHNIQUE = 'Lean 4 proof (round trip parse ∘ unparse on the core fragment) + PARSE correspondence + structure oracle on grammar documents'
